@@ -2,7 +2,7 @@
     outcomes) and the property predicate [Pb] on the observed trace itself. *)
 From Coq Require Import List Bool Arith.
 Import ListNotations.
-Require Import Nib.C16.Model Nib.C16.Spec.
+Require Import Nib.C16.Model Nib.C16.Spec Nib.C16.Spelled.
 
 (** the world a history starts from: sudoers written at setup, authz grants saved at setup *)
 (** [w_raw]: the sudoers were imported from a genesis section, i.e. stored as given (any order,
@@ -17,13 +17,15 @@ Record world := { w_root : addr; w_contracts : list addr; w_grants : list grant;
 (** the model the tree is compared with: wrapper guard in place (Gen/C16Oblig.v) *)
 Definition w_cfg (w : world) : cfg := mk_cfg (w_grants w) (w_owners w).
 
-Definition case : Type := world * list (list msg * obs).
+(** txs as written: address fields of the privileged messages with their spelling *)
+Definition case : Type := world * list (list smsg * obs).
 
 (** model vs implementation for one tx, from model state [s] *)
 Definition is_edit_sudoers (m : msg) : bool := match m with EditSudoers _ _ _ _ => true | _ => false end.
 
-Definition step_mismatch (raw : bool) (g : cfg) (s : st) (tx : list msg) (o : obs) : bool * st :=
-  let '(s', ok) := deliver g s tx in
+Definition step_mismatch (raw : bool) (g : cfg) (s : st) (stx : list smsg) (o : obs) : bool * st :=
+  let tx := map ids stx in
+  let '(s', ok) := sdeliver g s stx in
   let bad :=
     negb (Bool.eqb ok (o_ok o)) ||
     negb (root s' =? o_root o) ||
@@ -39,7 +41,7 @@ Definition step_mismatch (raw : bool) (g : cfg) (s : st) (tx : list msg) (o : ob
     ((w_meta s' =? w_meta s) && negb (o_same_meta o)) in
   (bad, s').
 
-Fixpoint trace_mismatch (raw : bool) (g : cfg) (s : st) (t : list (list msg * obs)) : bool :=
+Fixpoint trace_mismatch (raw : bool) (g : cfg) (s : st) (t : list (list smsg * obs)) : bool :=
   match t with
   | [] => false
   | (tx, o) :: r => let '(bad, s') := step_mismatch raw g s tx o in bad || trace_mismatch raw g s' r
@@ -52,4 +54,4 @@ Definition mismatch (c : case) : bool :=
 
 Definition violates (c : case) : bool :=
   let w := fst c in
-  negb (Pb (w_cfg w) (w_root w) (normalize (w_contracts w)) (snd c)).
+  negb (sPb (w_cfg w) (w_root w) (normalize (w_contracts w)) (snd c)).
